@@ -192,6 +192,8 @@ class Text(JupyterMixin):
                     for start, end, style in self._spans
                     if end > offset >= start
                 ],
+                justify=self.justify,
+                overflow=self.overflow,
                 end="",
                 tab_size=self.tab_size,
             )
